@@ -247,7 +247,7 @@ def subgrid_normalisation(prog: Program, rep: Report, rule: str, gi, guards) -> 
 
         def run(sts):
             for st in sts:
-                if isinstance(st, ast.Expr):
+                if isinstance(st, (ast.Expr, ast.Pass)):
                     continue
                 if isinstance(st, ast.For) and isinstance(st.target, ast.Name) and not st.orelse:
                     it_ = st.iter
